@@ -292,6 +292,8 @@ void vector_insert_columns(std::vector<T>& data, size_t old_width,
 template <class T>
 void vector_remove_column(std::vector<T>& data, size_t new_width, size_t pos) {
   assert(pos <= new_width);
+  if (pos >= data.size())  // no rows: nothing to remove (resize() would add elements)
+    return;
   for (size_t source = pos + 1; source < data.size(); ++source)
     for (size_t i = 0; i < new_width && source < data.size(); ++i)
       data[pos++] = data[source++];
